@@ -325,7 +325,9 @@ fn valid_input(entry: &str, u: &mut U) -> Vec<u8> {
                 let n = [12usize, 15, 18, 21, 24][u.below(5)];
                 return bip39::encode_phrase(&u.bytes(n * 4 / 3)).into_bytes();
             }
-            let n = u.range(0, 40);
+            // 0..40 words, and now and then many more (a decoder that writes into a fixed buffer before it checks
+            // the count needs 47+ list words to run past it)
+            let n = if u.ratio(1, 8) { [41usize, 47, 48, 49, 64, 96, 100, 192, 1000][u.below(9)] } else { u.range(0, 40) };
             let words: Vec<&str> = (0..n).map(|_| bip39::word(u.below(2048) as u16)).collect();
             let sep = [" ", "  ", "\t", "\n", "\u{3000}", "\u{a0}", "\u{2003}", "\u{85}"][u.below(8)];
             words.join(sep).into_bytes()
@@ -347,6 +349,25 @@ fn valid_input(entry: &str, u: &mut U) -> Vec<u8> {
         "private-key" => {
             let n = if u.ratio(2, 3) { 32 } else { u.below(70) };
             u.bytes(n)
+        }
+        "signature" if u.ratio(1, 5) => {
+            // notations other tools use for a signature (JSON-RPC / ethers objects, r:s:v lists, the 64-byte compact
+            // form), with scalars at the boundaries: whatever of this a parser accepts, it must not panic on it
+            let n_hex = "fffffffffffffffffffffffffffffffebaaedce6af48a03bbfd25e8cd0364141";
+            let scalars = ["0", "1", n_hex, "fffffffffffffffffffffffffffffffebaaedce6af48a03bbfd25e8cd0364142", "ffffffffffffffffffffffffffffffffffffffffffffffffffffffffffffffff", "7fffffffffffffffffffffffffffffff5d576e7357a4501ddfe92f46681b20a0", "", "10000000000000000000000000000000000000000000000000000000000000000"];
+            let r = scalars[u.below(scalars.len())];
+            let s = scalars[u.below(scalars.len())];
+            let v = ["27", "28", "0", "1", "37", "\"0x1b\"", "\"0x1c\"", "null", "256", "-1"][u.below(10)];
+            let q = |x: &str| if x.is_empty() { "\"0x\"".to_string() } else { format!("\"0x{x}\"") };
+            match u.below(6) {
+                0 => format!("{{\"r\":{},\"s\":{},\"v\":{v}}}", q(r), q(s)),
+                1 => format!("{{\"r\":{},\"s\":{},\"yParity\":{v}}}", q(r), q(s)),
+                2 => format!("[{},{},{v}]", q(r), q(s)),
+                3 => format!("0x{r}:0x{s}:{v}"),
+                4 => format!("{{\"r\":\"{}\",\"s\":\"{}\",\"v\":{v},\"yParity\":{v}}}", u.below(3), u.below(3)),
+                _ => format!("0x{:0>64}{:0>64}", r.get(..r.len().min(64)).unwrap_or(""), s.get(..s.len().min(64)).unwrap_or("")),
+            }
+            .into_bytes()
         }
         "signature" => {
             let mut b = u.bytes(65);
@@ -779,7 +800,19 @@ fn judge_cli(c: &CliCase, cls: &mut Classifier) -> Verdict {
     }
     let os: Vec<OsString> = args.iter().map(|a| OsString::from_vec(a.clone())).collect();
     let stdin = crate::refimpl::unhex(&c.stdin_hex).unwrap_or_default();
-    let out = cli::run_raw(exe, &os, &c.env, &stdin, Duration::from_secs(60));
+    // a vanity search whose account selector, length or prefix is invalid must end at once with an error
+    let search_must_not_start = {
+        let val = |name: &[u8]| args.windows(2).find(|w| w[0] == name).map(|w| String::from_utf8_lossy(&w[1]).into_owned());
+        let has_prefix = val(b"--vanity-prefix").is_some();
+        let bad_path = val(b"--vanity-hd-path").map(|p| !super::c14::text_is_canonical_path(&p)).unwrap_or(false);
+        let bad_index = val(b"--vanity-account-index").map(|i| i.parse::<u64>().map(|v| v >= 1 << 31).unwrap_or(true)).unwrap_or(false);
+        has_prefix && (bad_path || bad_index)
+    };
+    let out = if search_must_not_start {
+        cli::with_cpu_budget(10, || cli::run_raw(exe, &os, &c.env, &stdin, Duration::from_secs(60)))
+    } else {
+        cli::run_raw(exe, &os, &c.env, &stdin, Duration::from_secs(60))
+    };
     for f in temp {
         let _ = std::fs::remove_file(f);
     }
